@@ -230,6 +230,12 @@ impl RecvConn {
 
     /// Blocks until one read towards the message has been performed from the conn or the timeout has been reached
     pub fn read_once(&mut self, timeout: Timeout) -> Result<()> {
+        // If the buffer already holds a complete message there is nothing left to read towards it. Reading anyway
+        // would issue a recvmsg with an empty buffer: that reports zero bytes (taken for a closed connection) and
+        // makes the kernel hand out the descriptors attached to the next message, which would then be lost.
+        if self.buffer_contains_whole_message()? {
+            return Ok(());
+        }
         self.refill_buffer(self.bytes_needed_for_current_message()?, timeout)?;
         Ok(())
     }
